@@ -214,7 +214,10 @@ func (g *G) F64(label string) uint64 {
 
 func (g *G) F32(label string) uint64 {
 	t := g.t
-	switch rapid.IntRange(0, 3).Draw(t, label+".c") {
+	switch rapid.IntRange(0, 4).Draw(t, label+".c") {
+	case 4:
+		// the values with an encoding of their own, exactly
+		return uint64(math.Float32bits(rapid.SampledFrom([]float32{0, float32(math.Copysign(0, -1)), 1, -1, float32(math.NaN()), float32(math.Inf(1)), float32(math.Inf(-1)), math.MaxFloat32, -math.MaxFloat32, math.SmallestNonzeroFloat32, 65504, 1e-7}).Draw(t, label+".sp32")))
 	case 0:
 		f := float32(rapid.SampledFrom(f64Special).Draw(t, label+".sp"))
 		b := math.Float32bits(f)
@@ -951,6 +954,9 @@ func (g *G) Steps(label string, maxSteps int) []Step {
 				// Context.Reset is a rare entry point: make sure it occurs, also at the head of an
 				// UpdateContext on a logger that already has Level/Sample/Hook children
 				st.Ops = append([]Op{{V: Val{T: "reset"}}}, st.Ops...)
+			}
+			if len(st.Ops) > 1 && st.Ops[0].V.T == "reset" && rapid.IntRange(0, 3).Draw(t, label+".resetonly") == 0 {
+				st.Ops = st.Ops[:1] // Reset and nothing after it: the logger ends up without any context field
 			}
 		case "hook":
 			nh := rapid.IntRange(1, 3).Draw(t, label+".nh")
